@@ -215,3 +215,98 @@ func (eng *Engine) ExpandTables() {
 	}
 	eng.CS.Tables = nil
 }
+
+// ifaceContract finds the contract of an interface method: keyed by the static interface type of the receiver, or by
+// the interface that declares the method (e.g. Expr.Pos is declared by the embedded Node).
+func (eng *Engine) ifaceContract(recv types.Type, m *types.Func) (string, *FuncContract) {
+	key := ifaceMethodKey(recv, m)
+	if fc := eng.CS.Funcs[key]; fc != nil {
+		return key, fc
+	}
+	if sig, ok := m.Type().(*types.Signature); ok && sig.Recv() != nil {
+		k2 := ifaceMethodKey(sig.Recv().Type(), m)
+		if fc := eng.CS.Funcs[k2]; fc != nil {
+			return k2, fc
+		}
+	}
+	// an interface contract on a type that declares this very method object (embedding keeps the object)
+	for k, fc := range eng.CS.Funcs {
+		if !fc.Iface || !strings.HasSuffix(k, "."+m.Name()) {
+			continue
+		}
+		rest := strings.TrimSuffix(k, "."+m.Name())
+		i := strings.LastIndex(rest, ".")
+		if i < 0 {
+			continue
+		}
+		pkg := eng.typesPkg(rest[:i])
+		if pkg == nil {
+			continue
+		}
+		tn, ok := pkg.Scope().Lookup(rest[i+1:]).(*types.TypeName)
+		if !ok {
+			continue
+		}
+		it, ok := tn.Type().Underlying().(*types.Interface)
+		if !ok {
+			continue
+		}
+		for j := 0; j < it.NumMethods(); j++ {
+			if im := it.Method(j); im == m || (im.Name() == m.Name() && im.Pos() == m.Pos()) {
+				return k, fc
+			}
+		}
+	}
+	return key, nil
+}
+
+// parseTypeText resolves a Go type written in a contract: handles *T, []T and pkg.T with pkg an import of the
+// contract's package (types.Eval alone only sees the package scope, not file-level imports).
+func (env *Env) parseTypeText(text string) (types.Type, bool) {
+	text = strings.TrimSpace(text)
+	switch {
+	case strings.HasPrefix(text, "*"):
+		t, ok := env.parseTypeText(text[1:])
+		if !ok {
+			return nil, false
+		}
+		return types.NewPointer(t), true
+	case strings.HasPrefix(text, "[]"):
+		t, ok := env.parseTypeText(text[2:])
+		if !ok {
+			return nil, false
+		}
+		return types.NewSlice(t), true
+	}
+	if i := strings.Index(text, "."); i > 0 && !strings.ContainsAny(text, "[]{}() ") {
+		if pkg := env.importedPkg(text[:i]); pkg != nil {
+			if tn, ok := pkg.Scope().Lookup(text[i+1:]).(*types.TypeName); ok {
+				return tn.Type(), true
+			}
+		}
+		return nil, false
+	}
+	return nil, false
+}
+
+// LoopTable lists the natural loops of a function with the ordinals loop contracts refer to.
+func LoopTable(eng *Engine, fn *ssa.Function) []string {
+	var out []string
+	for _, li := range findLoops(fn) {
+		out = append(out, fmt.Sprintf("%s#%d  head block %d (%s) at %s", funcKey(fn), li.ordinal, li.head.Index, li.head.Comment, eng.Fset.Position(firstPos(li.head))))
+	}
+	return out
+}
+
+func importsTransitively(p *types.Package, path string, seen map[*types.Package]bool) bool {
+	if seen[p] {
+		return false
+	}
+	seen[p] = true
+	for _, imp := range p.Imports() {
+		if imp.Path() == path || importsTransitively(imp, path, seen) {
+			return true
+		}
+	}
+	return false
+}
